@@ -327,7 +327,7 @@ TIMERS_RULE = ("scripted scenarios over three timer ids with delays of 10-120 ms
 
 PROPS = {
     "C01": {
-        "modules": ["Sheens.Props.C01", "Sheens.Props.MatchTotal"],
+        "modules": ["Sheens.Props.C01", "Sheens.Props.MatchTotal", "Sheens.Props.TrMatch"],
         "theorems": ["Sheens.C01.match_sound", "Sheens.C01.Witness.sat", "Sheens.MatchTotal.satB_sound"],
         "facts": ["matcher_switches", "ineq_ops", "name_conventions"],
         "runs": {
@@ -339,7 +339,7 @@ PROPS = {
         "rule": MATCH_RULE,
     },
     "C02": {
-        "modules": ["Sheens.Props.C02", "Sheens.Props.C02Exact"],
+        "modules": ["Sheens.Props.C02", "Sheens.Props.C02Exact", "Sheens.Props.TrMatch"],
         "theorems": [],
         "facts": ["matcher_switches", "name_conventions"],
         "runs": {
@@ -350,7 +350,7 @@ PROPS = {
         "rule": MATCH_RULE,
     },
     "C03": {
-        "modules": ["Sheens.Props.C03", "Sheens.Props.C03Linear", "Sheens.Props.C03Outcome"],
+        "modules": ["Sheens.Props.C03", "Sheens.Props.C03Linear", "Sheens.Props.C03Outcome", "Sheens.Props.TrMatch"],
         "theorems": [],
         "facts": ["match_copies_first", "copyBindingss_copies", "matcher_branches_copy", "matcher_writes_only_locals_and_bindings", "match_no_hidden_state"],
         "runs": {
@@ -362,7 +362,7 @@ PROPS = {
                 "model is evaluated on every hereditary key-order permutation of the pattern; outcome sets are compared.",
     },
     "C04": {
-        "modules": ["Sheens.Props.C04"],
+        "modules": ["Sheens.Props.C04", "Sheens.Props.TrCore"],
         "theorems": [],
         "facts": ["engine_constants", "name_conventions"],
         "runs": {
@@ -435,7 +435,7 @@ PROPS = {
         "rule": ENGINE_RULE,
     },
     "C18": {
-        "modules": ["Sheens.Props.C18", "Sheens.Props.C18Own"],
+        "modules": ["Sheens.Props.C18", "Sheens.Props.C18Own", "Sheens.Props.TrCore"],
         "theorems": [],
         "facts": ["exec_writeback_guarded", "name_conventions", "engine_constants"],
         "runs": {
